@@ -1,4 +1,5 @@
 import CasbinVerif.Driver.Proto
+import CasbinVerif.Model.Enforcer
 import CasbinVerif.Spec.Store
 /-
   Driver ops for the policy store (C06, C07):
@@ -47,6 +48,11 @@ def storeMut (st : StoreSt) (op : StoreOp) : StoreSt × String × String × Bool
     match op with
     | .add r => some (Mgmt.add st.prio st.store r)
     | .addMany ex rs => some (Mgmt.addMany st.prio ex st.store rs)
+    -- the Enforcer API asks `updatable` first (repair of D12 / D18); under WF06 it always says yes
+    | .update o n => if Enf.updatable st.store [o] [n] then Mgmt.apply st.store op else some (st.store, false)
+    | .updateMany os ns =>
+        if os.length != ns.length then Mgmt.apply st.store op
+        else if Enf.updatable st.store os ns then Mgmt.apply st.store op else some (st.store, false)
     | _ => Mgmt.apply st.store op
   let searchOk := st.specOk && st.prio.isNone && op.rules.all (plainRule st.arity) &&
     specL.eraseDups.length == specL.length &&
